@@ -3,20 +3,21 @@ CHECK = {
     "assumptions": [
         "the protobuf runtime (proto.Marshal/Unmarshal, protojson, proto.Equal), encoding/base64 and net/http's header canonicalisation are trusted as oracles / reference encoders",
         "detail values, header values and codec instances outside the stated alphabets and bounds (longer strings, deeper nesting, more than 3 details / header entries) are not covered",
+        "string contents: two strings per message over a 13-symbol alphabet up to length 3 (4 against four fixed strings) plus 83 fixed longer strings; interactions that need three or more special strings in one message, or longer strings, are not covered; outside the small core each (pair, shape) meets one entry point, not all seven",
         "the gRPC *wire* encoding of metadata (grpc-go's own base64 step for -bin keys) is not executed; only what the conversion helpers hand to grpc-go is observed",
         "unit c18-errwire: connect-go (client and handler) and net/http transport an error faithfully; leading / trailing spaces of a message are not demanded on the grpc-message route (HTTP field values exclude surrounding blanks and the gRPC Status-Message leaves the space unescaped) nor in the client's view when the response carries no grpc-status-details-bin; the request info detail the server appends is only checked for its type; with the JSON request codec no non-canonically encoded detail is sent (the JSON form of an Any cannot carry it to the server)",
     ],
     "manifest": {
         "engine": "ENUM",
         "technique": "bounded-exhaustive enumeration of conversion inputs, each round trip compared with the specification the input was built from",
-        "text": "Errors (codes 1..16 x ~145 messages incl. every 1-byte UTF-8 string and %-strings x all ordered lists of 0-2 [thorough 0-3] details from a pool of 8; plus a grammar of valid but non-canonical encodings - field records reversed / rotated, an unknown field in front / between / behind, non-minimal varints in tags, length prefixes and values, a scalar written explicitly with its default value, a singular field given twice, a packed field written unpacked - applied to 13 values of 11 registered message types, each such detail alone, before / behind a canonical detail and twice) are sent through Proto->Connect->Proto, ConvertErrorToProtoError, Proto->gRPC status->Proto and the mixed chains; header lists (<=2 [3] entries; names in 3 case variants, repeated keys, -bin keys; all 1-byte and a sample of 2-6 byte binary values, so that every padding situation occurs; the base64 text of the -bin values of a header list written unpadded, padded, mixed and in the URL-safe alphabet [for which the raw bytes or the verbatim text are accepted]) through AddHeaders/ConvertToProtoHeader, ProtoHeader->MD->ProtoHeader, MD->ProtoHeader->MD (also converting the same object twice) and AppendToOutgoingContext; PercentEncodeMessage on every byte string of length <=2 and all 3-byte strings over a 16 [40] byte alphabet with an independent decoder; both strict codecs on every message descriptor of connectrpc.conformance.v1 x a bounded instance generator (each field alone, pairs, all-set; nesting <=2) for Marshal/MarshalAppend/MarshalStable plus unknown fields of every wire type (top level and nested) and unknown JSON keys; and Unmarshal(Marshal(m)) into a destination that is NOT fresh: pre-populated with every other single-field / all-fields-set instance of the type (singular, repeated, oneof and sub-message fields set), one destination re-used for sequences of three different messages (compared after every step), and re-used after an input rejected for an unknown field (fresh and pre-populated) — the result must equal m each time; two-call histories for every codec entry point on one goroutine (GOMAXPROCS 1, collector off, so pooled / package-level scratch state reaches the next call): d1 = E1(m1) for E1 in {Marshal, MarshalAppend(nil), MarshalAppend(prefix), MarshalStable}, then a second call X(m2) with a different message (empty, all-fields-set, a single-field instance; X = the four encoders and Unmarshal), THEN d1 is judged (bytes unchanged, still decoding to m1) and so is the second result; Unmarshal(buf, dst) followed by the caller overwriting and re-using buf (dst must not change); an encoding followed by the caller overwriting the byte slices of the message in place. Callers of the conversions (unit c18-errwire): error response definitions (every message of the alphabet x details incl. a non-canonical encoding and a foreign URL prefix x codes 1..16 x with / without response headers / trailers x unary, client-, server-, bidi-stream with the error before or after a response) sent with a connect-go client to the real reference server (createServer; reference and normal mode; h2c and HTTP/1.1) under Connect, gRPC and gRPC-Web: every route on which a peer can read the error - the client's view converted back to the test-case form, the Connect JSON error, grpc-status + percent-decoded grpc-message (independent decoder), the google.rpc.Status inside grpc-status-details-bin - must give code, message and every detail of the definition.",
+        "text": "Errors (codes 1..16 x ~145 messages incl. every 1-byte UTF-8 string and %-strings x all ordered lists of 0-2 [thorough 0-3] details from a pool of 8; plus a grammar of valid but non-canonical encodings - field records reversed / rotated, an unknown field in front / between / behind, non-minimal varints in tags, length prefixes and values, a scalar written explicitly with its default value, a singular field given twice, a packed field written unpacked - applied to 13 values of 11 registered message types, each such detail alone, before / behind a canonical detail and twice) are sent through Proto->Connect->Proto, ConvertErrorToProtoError, Proto->gRPC status->Proto and the mixed chains; header lists (<=2 [3] entries; names in 3 case variants, repeated keys, -bin keys; all 1-byte and a sample of 2-6 byte binary values, so that every padding situation occurs; the base64 text of the -bin values of a header list written unpadded, padded, mixed and in the URL-safe alphabet [for which the raw bytes or the verbatim text are accepted]) through AddHeaders/ConvertToProtoHeader, ProtoHeader->MD->ProtoHeader, MD->ProtoHeader->MD (also converting the same object twice) and AppendToOutgoingContext; PercentEncodeMessage on every byte string of length <=2 and all 3-byte strings over a 16 [40] byte alphabet with an independent decoder; both strict codecs on every message descriptor of connectrpc.conformance.v1 x a bounded instance generator (each field alone, pairs, all-set; nesting <=2) for Marshal/MarshalAppend/MarshalStable plus unknown fields of every wire type (top level and nested) and unknown JSON keys; and Unmarshal(Marshal(m)) into a destination that is NOT fresh: pre-populated with every other single-field / all-fields-set instance of the type (singular, repeated, oneof and sub-message fields set), one destination re-used for sequences of three different messages (compared after every step), and re-used after an input rejected for an unknown field (fresh and pre-populated) — the result must equal m each time; two-call histories for every codec entry point on one goroutine (GOMAXPROCS 1, collector off, so pooled / package-level scratch state reaches the next call): d1 = E1(m1) for E1 in {Marshal, MarshalAppend(nil), MarshalAppend(prefix), MarshalStable}, then a second call X(m2) with a different message (empty, all-fields-set, a single-field instance; X = the four encoders and Unmarshal), THEN d1 is judged (bytes unchanged, still decoding to m1) and so is the second result; Unmarshal(buf, dst) followed by the caller overwriting and re-using buf (dst must not change); an encoding followed by the caller overwriting the byte slices of the message in place; the CONTENT of string fields (harness c18_strings_test.go, ids codecstr/<hex first>/<hex second>): ordered pairs of strings over an alphabet of JSON-significant characters {a, blank, backslash, double quote, tab, U+0001, e-acute, colon, comma, braces, brackets} - quick: (all strings of length <=2 + 83 longer tails: every way of ending in backslashes / quotes, JSON-looking text, escape-looking text, blanks in every position) x (length <=1 + tails) in both orders plus all strings of length 3 x length <=1 in both orders (102,220 pairs); thorough: (all of length <=3 + tails) x (all of length <=2 + tails) in both orders plus all of length 4 x 4 strings in both orders - each pair placed, first serialised in front of second, in 7 message shapes (name / value of a Header, two values, two header entries, a response definition with header value + error message + expanded Any detail + trailers, error message + detail, two details, key / value of a Struct) x both strict codecs x {Marshal, MarshalAppend to nil / empty / a prefix without spare capacity / a prefix in a re-used buffer holding an earlier encoding / the re-used buffer, MarshalStable} (full product for pairs of two short-or-tail strings, one rotating entry point per shape for the rest): the codec must decode what it appended to a message equal to the specification, the prefix bytes must be untouched in the result and in the buffer handed in, the output is also judged by the protobuf runtime's own decoder. Callers of the conversions (unit c18-errwire): error response definitions (every message of the alphabet x details incl. a non-canonical encoding and a foreign URL prefix x codes 1..16 x with / without response headers / trailers x unary, client-, server-, bidi-stream with the error before or after a response) sent with a connect-go client to the real reference server (createServer; reference and normal mode; h2c and HTTP/1.1) under Connect, gRPC and gRPC-Web: every route on which a peer can read the error - the client's view converted back to the test-case form, the Connect JSON error, grpc-status + percent-decoded grpc-message (independent decoder), the google.rpc.Status inside grpc-status-details-bin - must give code, message and every detail of the definition.",
         "note": "Oracles come from the property text (identity on code/message/type URL/bytes; per-key value sequences; base64 applied exactly once, judged with encoding/base64; printable ASCII + invertibility with a hand-written decoder; proto.Equal). Foreign type-URL prefixes are only required to keep the type name. Header entries without values are not required to survive.",
         "design_ref": "DESIGN.md §2.2, §4 C18",
     },
     "units": [
         {
             "name": "c18-internal", "pkg": "internal",
-            "harness": ["internal/c18_internal_test.go"],
+            "harness": ["internal/c18_internal_test.go", "internal/c18_strings_test.go"],
             "test": "^TestVerifC18Internal$",
             "shards": {"quick": 16, "thorough": 16},
             "budget_s": {"quick": 40, "thorough": 400},
